@@ -535,9 +535,27 @@ fn dynamic_fault(rng: &mut Rng, world: &World, v: &mut Variant) {
 
 /// Deterministic boundary cases of the C13 campaign (run indices 0..C13_BOUNDARY_RUNS): sets that
 /// produce 255, 256 and 257 diagnostics (exit statuses are 8 bit wide, counters wrap).
-pub const C13_BOUNDARY_RUNS: u64 = 9;
+pub const C13_BOUNDARY_RUNS: u64 = 12;
 
 fn gen_c13_boundary(rng: &mut Rng, index: u64) -> WorldTrace {
+    if index >= 9 {
+        // valid files whose names need care when they pass through an argument parser or a shell-like
+        // splitter: comma, blank, semicolon, quote, non-ASCII; named one by one (and as a directory)
+        let names = ["motor,v2.st", "a b.st", "x;y.st", "q'uote.st", "ü ñ.st", "plain.st"];
+        let mut decls = vec![];
+        let mut files = vec![];
+        for (i, name) in names.iter().enumerate() {
+            decls.push(pool::Decl { text: format!("FUNCTION_BLOCK Odd{i}\n  VAR\n    k : INT;\n  END_VAR\n  k := {i};\nEND_FUNCTION_BLOCK\n"), kind: "fb".into(), name: format!("Odd{i}") });
+            files.push(FileSpec { name: name.to_string(), decls: vec![i], enc: Enc::Utf8, raw: None, via_symlink: false, name_bytes: None });
+        }
+        let world = World { decls, fault: None };
+        let entry = [Entry::Check, Entry::Echo, Entry::Tokenize][(index - 9) as usize % 3];
+        let mut listed: Vec<String> = files.iter().map(|f| format!("ws/{}", f.name)).collect();
+        rng.shuffle(&mut listed);
+        let mk = |role: &str, args: Vec<String>, rng: &mut Rng| Variant { role: role.into(), entry, files: files.clone(), extras: vec![], args, dir_seed: rng.next(), hash_seed: rng.next(), faults: vec![], unprivileged: false, cwd: None };
+        let variants = vec![mk(if entry == Entry::Check { "dir" } else { "parts" }, vec!["ws".into()], rng), mk(if entry == Entry::Check { "files" } else { "parts" }, listed, rng)];
+        return WorldTrace { prop: "C13".into(), world, variants, mode: "boundary:names".into() };
+    }
     let n = [255usize, 256, 257][(index % 3) as usize];
     let which = index / 3;
     let mut decls = vec![];
@@ -809,6 +827,14 @@ fn oracle_c13(t: &WorldTrace, obs: &[Obs], stats: &mut Stats) -> Vec<Violation> 
                 }
             }
         }
+        // `echo` / `tokenize` exit 0 exactly when every given file parses / tokenizes: with no file at
+        // all (no argument, or nothing but an empty directory) that is the case
+        if matches!(v.entry, Entry::Echo | Entry::Tokenize) && (role == "fault.static.no_arguments" || (role == "fault.static.empty_directory" && v.args == vec!["ws/empty".to_string()])) {
+            stats.count("c13.empty_set_parts_evaluations");
+            if !matches!(o.outcome, Outcome::Ok) {
+                out.push(viol("C13", format!("C13/{:?}-fails-on-empty-set/{what}", v.entry), format!("variant {i} ({role}, args {:?}): there is no file that does not parse / tokenize, but the result is {:?}", v.args, o.outcome)));
+            }
+        }
         for d in &o.diags {
             if !is_problem_code(&d.code) {
                 out.push(viol("C13", "C13/diagnostic-without-code".into(), format!("variant {i}: diagnostic with code {:?}", d.code)));
@@ -889,7 +915,11 @@ fn oracle_c13(t: &WorldTrace, obs: &[Obs], stats: &mut Stats) -> Vec<Violation> 
 const W1252_EXTRAS: &[&str] = &["Zähler", "Größe µ °C", "naïve façade", "£ € ¥", "Ÿ œ Š ž", "¿qué?", "×÷±", "c1 \u{81}\u{8d}\u{8f}\u{90}\u{9d} ctl",
     // text that quotes mojibake: as Windows-1252 bytes it holds several accidental well-formed UTF-8
     // pairs next to lone high bytes (a decoder must not guess from the majority)
-    "nicht Ã¤ Ã¶ Ã¼ ÃŸ sondern ä", "Â°C Â°F Â°K neben °", "Ã© Ã¨ Ãª Ã  é"];
+    "nicht Ã¤ Ã¶ Ã¼ ÃŸ sondern ä", "Â°C Â°F Â°K neben °", "Ã© Ã¨ Ãª Ã  é",
+    // the three characters whose Windows-1252 bytes are EF BB BF (a byte-order mark to a careless reader)
+    "mitten im Text ï»¿ ä",
+    // a rule of characters that take one byte in Windows-1252 and three in UTF-8, longer than the rest of a small file
+    "————————————————————————————————————————————————————————————————————————————————————————————————————————————————————————————————————————————————————————————————————————————————————————————————————————————————————————————————————————————————————————————————————————————————————————————————————————————————————————————————————————————————————————————————————————————————————————————————————————————————————————————————————————————————————————————————————————————————————————————————"];
 const UNICODE_EXTRAS: &[&str] = &["→ 日本語", "Ω ≈ ∑", "😀 emoji", "Привет", "ﬁ ligature", "\u{2028}sep"];
 
 /// Adds non-ASCII characters in comments and string literals.
